@@ -1,6 +1,7 @@
 \* C01 thorough: events as in quick; E: every event x 11 leaf predicates x all 6 entries, and as call-site filter;
 \* F: all filter trees of depth <= 2 over {true,false,has_b} (with / without ambient b), depth <= 1 over 11 predicates,
 \*    depth 3 over {true,false} with one side of depth <= 1 (and/or(d2,d1), and/or(d1,d2), wrappers(d2)) for Runtime::emit;
+\* R: nested Runtime scenario for all 6 entries; node kinds as in quick (wrapping::from_fn, nested Runtime, AssertInternal included);
 \* D: all destination trees of depth <= 2 x all entries, and depth 3 (and(d2,d1), and(d1,d2), erased/Some/Arc(d2), wrap(f,d2)) for rt / direct.
 SPECIFICATION Spec
 CONSTANTS
